@@ -245,7 +245,7 @@ Lemma seq_inplace (tup : bool) xs ys es rec (oo : option (list opv)) :
   (forall iv, In iv (edv es ++ edt es) -> fst iv < length xs) ->
   match oo with Some os => transformed (apply_edits (edv es ++ edt es) xs) os | None => apply_edits (edv es ++ edt es) xs end = ys ->
   forallb is_atom ys = true ->
-  GoodD conv bidir d (length q) (sroot tup xs) (sroot tup ys).
+  GoodD0 conv bidir d (length q) (sroot tup xs) (sroot tup ys).
 Proof.
   intros d HI H6 H7 H8 H9 Hm Hsa Hsr Ho ND Hlt Hres Ay.
   set (l := map (istrip (length q)) (p1 d) ++ map (istrip (length q)) (p4 d)).
